@@ -12,7 +12,7 @@
 From Coq Require Import String Ascii.
 From Cel.Model Require Import Parser.
 From Cel.Model Require Import Surface.
-From Cel.Proofs Require Import PrecedenceProofs ParserRoundtrip ParserFuel.
+From Cel.Proofs Require Import PrecedenceProofs ParserRoundtrip ParserFuel LexerRoundtrip.
 
 (** Chains of && / || keep their operands in source order: for every number of operands the
     tree built for t0 op t1 op ... tn ([logic_tree], applied by the parser's chain loops to the
@@ -85,6 +85,12 @@ Proof. split; vm_compute; reflexivity. Qed.
 Theorem C04_roundtrip : forall t, wf_st t -> parse_tokens (raw t) = CExpr (ast t).
 Proof. exact parse_tokens_roundtrip. Qed.
 
+(** From source text: writing the tokens of the rendering one after the other, each followed by
+    a space (identifiers being identifiers of the language: not empty, not a keyword), and
+    compiling that text gives the tree. *)
+Theorem C04_source_roundtrip : forall t, wf_st t -> ids_ok t -> compile (text (raw t)) = CExpr (ast t).
+Proof. exact compile_roundtrip. Qed.
+
 (** ... and with any larger fuel: the result does not depend on how much is left over. *)
 Theorem C04_roundtrip_any_fuel : forall t, wf_st t ->
   exists n, forall f, (n <= f)%nat -> p_expr f (raw t) = POk (ast t) [].
@@ -103,3 +109,4 @@ Print Assumptions C04_prefix_parity.
 Print Assumptions C04_macro_around.
 Print Assumptions C04_roundtrip.
 Print Assumptions C04_roundtrip_any_fuel.
+Print Assumptions C04_source_roundtrip.
